@@ -20,6 +20,7 @@ var vrfEntries = map[string]func(){
 	"VrfC11PinRoutes": VrfC11PinRoutes,
 	"VrfC11Auth":      VrfC11Auth,
 	"VrfC11ReadRoutes": VrfC11ReadRoutes,
+	"VrfC11Router":     VrfC11Router,
 }
 
 // ---- response recorder
@@ -498,3 +499,81 @@ func VrfC11ReadRoutes() {
 	}
 	vrf_reach("C11.read.end-wellformed")
 }
+
+// VrfC11Router: the API built by the real NewAPIWithHost (listening sockets
+// opaque, CORS / tracing / logging wrappers transparent), requests sent through
+// its real handler chain, gorilla/mux matching the routes the code registered:
+// with credentials configured nothing - known or unknown route, any method -
+// runs without a valid pair; with valid (or no configured) credentials every
+// (method, path) of the route table performs that route's cluster operation, a
+// known path with another method is refused (405) and an unknown path is a 404,
+// both without any cluster call.
+func VrfC11Router() {
+	svc := &vrfClusterSvc{}
+	cfg := &Config{}
+	cfg.Default()
+	withCreds := vrf_choice("credentials_configured", 2) == 1
+	pw := vrf_nondet_string("configured_password")
+	if withCreds {
+		cfg.BasicAuthCredentials = map[string]string{"alice": pw}
+	}
+	a, err := NewAPIWithHost(context.Background(), cfg, nil)
+	vrf_assert(err == nil && a != nil, "C11.router.constructed")
+	if a == nil {
+		return
+	}
+	srv := rpc.NewServer(nil, "vrf")
+	srv.RegisterName("Cluster", svc)
+	srv.RegisterName("PeerMonitor", &vrfMonitorSvc{svc})
+	a.rpcClient = rpc.NewClientWithServer(nil, "vrf", srv)
+
+	type rt struct{ method, path, op string }
+	table := []rt{
+		{"GET", "/id", "ID"}, {"GET", "/version", "Version"}, {"GET", "/peers", "Peers"},
+		{"DELETE", "/peers/" + vrfGoodPeer, "PeerRemove"},
+		{"GET", "/allocations", "Pins"}, {"GET", "/allocations/" + vrfGoodCid, "PinGet"},
+		{"GET", "/pins", "StatusAll"}, {"POST", "/pins/" + vrfGoodCid + "/recover", "Recover"},
+		{"POST", "/pins/recover", "RecoverAll"}, {"GET", "/pins/" + vrfGoodCid, "Status"},
+		{"POST", "/pins/" + vrfGoodCid, "Pin"}, {"DELETE", "/pins/" + vrfGoodCid, "Unpin"},
+		{"POST", "/pins/ipfs/" + vrfGoodCid + "/a/b", "PinPath"}, {"DELETE", "/pins/ipns/example.org", "UnpinPath"},
+		{"POST", "/ipfs/gc", "RepoGC"}, {"GET", "/health/alerts", "Alerts"},
+		{"GET", "/monitor/metrics/ping", "LatestMetrics"}, {"GET", "/monitor/metrics", "MetricNames"},
+		// wrong method on a known path
+		{"PUT", "/pins/" + vrfGoodCid, "405"}, {"DELETE", "/id", "405"}, {"POST", "/version", "405"},
+		// unknown paths
+		{"GET", "/nothing/here", "404"}, {"POST", "/pins/" + vrfGoodCid + "/recover/more", "404"}, {"GET", "/api/v0/id", "404"},
+	}
+	k := table[vrf_choice("request", len(table))]
+	r := &http.Request{Method: k.method, URL: &url.URL{Path: k.path}, Header: http.Header{}}
+	supplied := vrf_choice("credentials_supplied", 2) == 1
+	user, pass := vrf_nondet_string("user"), vrf_nondet_string("password")
+	if supplied {
+		r.SetBasicAuth(user, pass)
+	}
+	w := &vrfWriter{hdr: http.Header{}}
+	a.server.Handler.ServeHTTP(w, r)
+
+	valid := !withCreds
+	if withCreds && supplied {
+		valid = vrf_and(user == "alice", pass == pw)
+	}
+	vrf_note_bool("valid_credentials", valid)
+	vrf_assert(w.headers == 1, "C11.router.one-status")
+	if !valid {
+		vrf_assert(w.status == 401 && len(svc.calls) == 0, "C11.router.nothing-without-credentials")
+		vrf_reach("C11.router.end-unauthorised")
+		return
+	}
+	switch k.op {
+	case "404":
+		vrf_assert(w.status == 404 && len(svc.calls) == 0, "C11.router.unknown-path-404")
+	case "405":
+		vrf_assert(w.status == 405 && len(svc.calls) == 0, "C11.router.wrong-method-refused")
+	default:
+		vrf_assert(len(svc.calls) == 1 && svc.calls[0].method == k.op, "C11.router.route-performs-its-operation")
+		vrf_assert(w.status >= 200 && w.status < 300, "C11.router.ok")
+	}
+	vrf_reach("C11.router.end-authorised")
+}
+
+const vrfGoodPeer = "QmZHKZDavkvNfA9gSAg7HALv8jF7BJaKjUc9U2LSuvUySB"
